@@ -53,19 +53,23 @@ fn run_pair(t: &mut Trace, prog: &str, ast: Option<&Ast>, tpl: &str, input: &V, 
     let r = oe["out"].as_array().unwrap().len();
     // diagnosis aid for the known-finding signature: the two evaluators disagree ONLY because the
     // library evaluator sees repeated object keys that jq (and the generic evaluator) collapse
-    let mut dupsens = 0;
+    let mut dupsens = 0; // the evaluators disagree ONLY because jq::eval sees repeated keys
+    let mut sens_e = 0; // jq::eval's outcome changes when the repeated keys are collapsed first
+    let mut sens_g = 0; // same for the generic evaluator (jq 1.7.1 collapses at parse time)
     if oe != og {
         stats.disagree += 1;
-        if input.has_dup_keys() {
-            let c = input.collapsed().text();
-            let oe2 = run_full(&expr, c.as_bytes());
-            let og2 = run_generic(&expr, c.as_bytes());
-            if oe2 == og2 && og2 == og {
-                dupsens = 1;
-            }
+    }
+    if input.has_dup_keys() {
+        let c = input.collapsed().text();
+        let oe2 = run_full(&expr, c.as_bytes());
+        let og2 = run_generic(&expr, c.as_bytes());
+        sens_e = (oe2 != oe) as i32;
+        sens_g = (og2 != og) as i32;
+        if oe != og && oe2 == og2 && og2 == og {
+            dupsens = 1;
         }
     }
-    t.emit(json!({"e":"run","tier":tier,"prog":prog,"tpl":tpl,"ast":astv,"in":inv,"oe":oe,"og":og,"r":r,"dupsens":dupsens,
+    t.emit(json!({"e":"run","tier":tier,"prog":prog,"tpl":tpl,"ast":astv,"in":inv,"oe":oe,"og":og,"r":r,"dupsens":dupsens,"sens_e":sens_e,"sens_g":sens_g,
                   "dup": if input.has_dup_keys() {1} else {0}}));
 }
 
